@@ -41,7 +41,7 @@ fn must_panic<R>(st: &mut Stats, name: &str, detail: &dyn Fn() -> String, f: imp
     st.eval();
     st.count(&format!("table:{}", name));
     match catch(f) {
-        Outcome::Panic { .. } => st.count("rejections"),
+        Outcome::Panic { msg, .. } => { st.count("rejections"); st.sample(|| format!("{} with {} -> rejected: panic '{}'", name, detail(), msg)); }
         Outcome::Overflow => st.count("skipped:rat-overflow"),
         _ => st.violation(&format!("C20:{}:accepted", name), format!("{} returned instead of panicking; {}", name, detail())),
     }
@@ -52,7 +52,7 @@ fn must_panic_mut<X, R>(st: &mut Stats, name: &str, detail: &dyn Fn() -> String,
     st.eval();
     st.count(&format!("table:{}", name));
     match catch(|| f(x)) {
-        Outcome::Panic { .. } => { st.count("rejections"); let after = snap(x); if after != before { st.violation(&format!("C20:{}:mutated-before-panic", name), format!("{} panicked but left the receiver changed: before {} after {}; {}", name, before, after, detail())); } }
+        Outcome::Panic { msg, .. } => { st.count("rejections"); st.sample(|| format!("{} with {} -> rejected: panic '{}', receiver unchanged: {}", name, detail(), msg, before)); let after = snap(x); if after != before { st.violation(&format!("C20:{}:mutated-before-panic", name), format!("{} panicked but left the receiver changed: before {} after {}; {}", name, before, after, detail())); } }
         Outcome::Overflow => st.count("skipped:rat-overflow"),
         _ => st.violation(&format!("C20:{}:accepted", name), format!("{} returned instead of panicking (receiver now {}); {}", name, snap(x), detail())),
     }
